@@ -144,11 +144,15 @@ def c15_step(E, nmax=3, ops=OPS):
         elif op == "isub":
             k = E.choice("len", 3)
             L = [_payload(E, "p%d" % j, n, objs) for j in range(k)]
+            # each item named by the object or by its identifier (index() accepts both): the same element may be named twice
+            # in two forms
+            forms = [E.pick("form%d" % j, ["object", "id"]) for j in range(k)]
+            arg = [(o if f == "object" else o.id) for o, f in zip(L, forms)]
             exp = list(ref)
             bad = False
-            for o in L:
+            for o, f in zip(L, forms):
                 hit = [e for e in exp if e.id == o.id]
-                if not hit or (hit[0] is not o):
+                if not hit or (f == "object" and hit[0] is not o):
                     bad = True
                     break
                 exp.remove(hit[0])
@@ -157,7 +161,7 @@ def c15_step(E, nmax=3, ops=OPS):
 
             def call():
                 d2 = dl
-                d2 -= L
+                d2 -= arg
         elif op == "setitem_int":
             i = E.int("i", -n - 2, n + 2)
             x = _payload(E, "x", n, objs)
